@@ -23,7 +23,7 @@
 (***************************************************************************)
 EXTENDS Naturals, Integers, Sequences, FiniteSets, TLC
 
-CONSTANTS LatSteps      \* fixed link latency in steps (>= 1)
+CONSTANTS LatSteps      \* link latency in steps (>= 1) configured by the Builder
 
 Hosts == {1, 2}
 Other(h) == 3 - h
@@ -33,9 +33,11 @@ VARIABLES
     ph,      \* [Hosts -> per-host observation record]
     pops,    \* [operation id -> record]  operations started by the programs
     pdg,     \* [datagram id -> record]   datagrams sent
+    plat,    \* latency (steps) of the link between the two hosts now in force: the Builder's value
+             \* until the test calls Sim::set_link_latency; a message keeps the latency it was sent with
     bad      \* set of clause names contradicted by an observation
 
-pvars == <<pstep, ph, pops, pdg, bad>>
+pvars == <<pstep, ph, pops, pdg, plat, bad>>
 
 PInit ==
     /\ pstep = 0
@@ -49,6 +51,7 @@ PInit ==
                 bound |-> {}]]     \* sockets ("tcp", "udp") the current incarnation has bound
     /\ pops = <<>>
     /\ pdg = <<>>
+    /\ plat = LatSteps
     /\ bad = {}
 
 Flag(cond, name) == IF cond THEN {} ELSE {name}
@@ -72,7 +75,7 @@ P_StepBegin ==
     /\ pstep' = pstep + 1
     /\ ph' = [h \in Hosts |-> IF ph[h].up THEN [ph[h] EXCEPT !.lastTurn = pstep + 1, !.turned = TRUE]
                                 ELSE ph[h]]
-    /\ UNCHANGED <<pops, pdg, bad>>
+    /\ UNCHANGED <<pops, pdg, bad, plat>>
 
 \* The program of host h (incarnation inc) started operation `id`:
 \* kind \in {"listen","ubind","connect","accept","read","write"}; c = the connection a
@@ -81,19 +84,22 @@ P_StepBegin ==
 PS_Cmd(st, id, h, inc, kind, c) ==
     [st EXCEPT
        !.pops = @ @@ (id :> [h |-> h, inc |-> inc, kind |-> kind, c |-> c, start |-> pstep,
-                             res |-> "pend", rstep |-> 0, dl |-> 0]),
+                             lat |-> plat,      \* latency in force when it started (a connect sends its SYN then)
+                             res |-> "pend", rstep |-> 0,
+                             rlat |-> 0,        \* latency in force when it returned (a write sends its segment then)
+                             dl |-> 0]),
        \* "none of its code runs ... until it is bounced"
        !.bad = @ \cup Flag(st.ph[h].up /\ st.ph[h].inc = inc, "StopsDead")]
 P_Cmd(id, h, inc, kind, c) ==
     /\ id \notin OpIds
     /\ Set(PS_Cmd(Cur, id, h, inc, kind, c))
-    /\ UNCHANGED <<pstep, pdg>>
+    /\ UNCHANGED <<pstep, pdg, plat>>
 
 \* Operation `id` returned res:  "ok" | "refused" | "inuse" | "data" | "closed"
 \* (end-of-file or reset) | "err".
 PS_Res(st, id, res) ==
     LET o == st.pops[id]  h == o.h IN
-    [pops |-> [st.pops EXCEPT ![id].res = res, ![id].rstep = pstep],
+    [pops |-> [st.pops EXCEPT ![id].res = res, ![id].rstep = pstep, ![id].rlat = plat],
      ph   |-> [st.ph EXCEPT
                  ![h].bound = IF o.kind = "listen" /\ res = "ok" THEN @ \cup {"tcp"}
                               ELSE IF o.kind = "ubind" /\ res = "ok" THEN @ \cup {"udp"} ELSE @],
@@ -106,29 +112,29 @@ PS_Res(st, id, res) ==
         \* "connection attempts ... that reach the host while it is down ... must be refused,
         \*  reset or dropped rather than handed to the new incarnation"
         \cup Flag((o.kind = "connect" /\ res = "ok")
-                    => ~DownAtStepP(st.ph, Other(h), o.start + LatSteps), "StaleConnect")]
+                    => ~DownAtStepP(st.ph, Other(h), o.start + o.lat), "StaleConnect")]
 P_Res(id, res) ==
     /\ id \in OpIds /\ Pending(id)
     /\ Set(PS_Res(Cur, id, res))
-    /\ UNCHANGED <<pstep, pdg>>
+    /\ UNCHANGED <<pstep, pdg, plat>>
 
 \* Host h (incarnation inc) sent datagram d to the other host.
 P_Send(d, h, inc) ==
     /\ d \notin DOMAIN pdg
-    /\ pdg' = pdg @@ (d :> [from |-> h, sent |-> pstep])
+    /\ pdg' = pdg @@ (d :> [from |-> h, sent |-> pstep, lat |-> plat])
     /\ bad' = bad \cup Flag(ph[h].up /\ ph[h].inc = inc, "StopsDead")
-    /\ UNCHANGED <<pstep, ph, pops>>
+    /\ UNCHANGED <<pstep, ph, pops, plat>>
 
 \* Host h (incarnation inc) received datagram d.
 PS_Recv(st, d, h, inc) ==
     [st EXCEPT !.bad = @
          \cup Flag(st.ph[h].up /\ st.ph[h].inc = inc, "StopsDead")
          \* "datagrams that reach the host while it is down ... dropped"
-         \cup Flag(~DownAtStepP(st.ph, h, pdg[d].sent + LatSteps), "StaleDatagram")]
+         \cup Flag(~DownAtStepP(st.ph, h, pdg[d].sent + pdg[d].lat), "StaleDatagram")]
 P_Recv(d, h, inc) ==
     /\ d \in DOMAIN pdg
     /\ Set(PS_Recv(Cur, d, h, inc))
-    /\ UNCHANGED <<pstep, pdg>>
+    /\ UNCHANGED <<pstep, pdg, plat>>
 
 \* A turn of host h: the operations in rs (sequence of <<id, res>>) returned and the
 \* datagrams in got were handed to the program (incarnation inc).
@@ -141,14 +147,14 @@ P_Turn(h, inc, got, rs) ==
     /\ \A i \in 1..Len(rs) : rs[i][1] \in OpIds /\ Pending(rs[i][1])
     /\ \A i \in 1..Len(got) : got[i] \in DOMAIN pdg
     /\ Set(FoldRecv(FoldRes(Cur, rs), got, h, inc))
-    /\ UNCHANGED <<pstep, pdg>>
+    /\ UNCHANGED <<pstep, pdg, plat>>
 
 \* A program started an operation that returned at once (res # "") or blocks (res = "").
 P_CmdRes(id, h, inc, kind, c, res) ==
     /\ id \notin OpIds
     /\ LET st0 == PS_Cmd(Cur, id, h, inc, kind, c) IN
        Set(IF res = "" THEN st0 ELSE PS_Res(st0, id, res))
-    /\ UNCHANGED <<pstep, pdg>>
+    /\ UNCHANGED <<pstep, pdg, plat>>
 
 \* The step is over; polls / sent = activity and send counters of both hosts.
 P_StepEnd(polls, sent) ==
@@ -158,7 +164,7 @@ P_StepEnd(polls, sent) ==
                    "StopsDead")
          \* "peers blocked on connections to it are unblocked ... instead of hanging"
          \cup Flag(\A o \in OpIds : (Pending(o) /\ pops[o].dl > 0) => pstep < pops[o].dl, "PeersUnblocked")
-    /\ UNCHANGED <<pstep, ph, pops, pdg>>
+    /\ UNCHANGED <<pstep, ph, pops, pdg, plat>>
 
 \* Data segments of connection c that reached host h (during one of its turns) and that
 \* h's programs have not read: they are what makes h's stream destructor emit an RST.
@@ -166,7 +172,7 @@ P_StepEnd(polls, sent) ==
 \* returns in the step in which its segment is sent) and reads of h that returned data.
 UnreadAt(h, c) ==
     Cardinality({o \in OpIds : pops[o].h = Other(h) /\ pops[o].kind = "write" /\ pops[o].c = c
-                                /\ pops[o].res = "ok" /\ pops[o].rstep + LatSteps <= ph[h].lastTurn})
+                                /\ pops[o].res = "ok" /\ pops[o].rstep + pops[o].rlat <= ph[h].lastTurn})
     - Cardinality({o \in OpIds : pops[o].h = h /\ pops[o].kind = "read" /\ pops[o].c = c
                                   /\ pops[o].res = "data"})
 
@@ -184,9 +190,9 @@ Deadlines(h) ==
         IF Pending(o) /\ pops[o].h = Other(h) /\ pops[o].dl = 0 /\
            (\/ pops[o].kind = "read"
             \/ (pops[o].kind = "write" /\ UnreadAt(h, pops[o].c) > 0)
-            \/ (pops[o].kind = "connect" /\ pops[o].start + LatSteps <= ph[h].lastTurn
-                                          /\ ~DownAtStep(h, pops[o].start + LatSteps)))
-        THEN [pops[o] EXCEPT !.dl = pstep + LatSteps + 1]
+            \/ (pops[o].kind = "connect" /\ pops[o].start + pops[o].lat <= ph[h].lastTurn
+                                          /\ ~DownAtStep(h, pops[o].start + pops[o].lat)))
+        THEN [pops[o] EXCEPT !.dl = pstep + plat + 1]
         ELSE pops[o]]
 
 \* h is bounced at pstep: what reached it while it was down is answered in its first turn
@@ -194,7 +200,7 @@ Deadlines(h) ==
 BounceDeadlines(p, h) ==
     [o \in DOMAIN p |->
         IF p[o].res = "pend" /\ p[o].h = Other(h) /\ p[o].dl = 0 /\ p[o].kind = "write"
-        THEN [p[o] EXCEPT !.dl = pstep + LatSteps + 2] ELSE p[o]]
+        THEN [p[o] EXCEPT !.dl = pstep + plat + 2] ELSE p[o]]
 
 \* operations of the dead incarnation never return
 Cancelled(p, h) ==
@@ -209,7 +215,7 @@ P_Crash(h, obs) ==
     THEN \* crash of a host that is already down: nothing may change
          /\ bad' = bad \cup Flag(obs.polls[h] = ph[h].fpolls /\ obs.sent[h] = ph[h].fsent /\ ~obs.running,
                                  "StopsDead")
-         /\ UNCHANGED <<pstep, ph, pops, pdg>>
+         /\ UNCHANGED <<pstep, ph, pops, pdg, plat>>
     ELSE /\ ph' = [ph EXCEPT ![h].up = FALSE, ![h].downAt = pstep, ![h].bound = {},
                              ![h].fpolls = obs.polls[h], ![h].fsent = obs.sent[h]]
          /\ pops' = Cancelled(Deadlines(h), h)
@@ -221,7 +227,7 @@ P_Crash(h, obs) ==
               \* (D12 - entries left behind by failed or cancelled connects - is repaired, so the
               \*  ghost that used to excuse them is gone and the stream table must be empty)
               \cup Flag(obs.udp = 0 /\ obs.tcp = 0 /\ obs.mcast = 0 /\ obs.streams = 0, "TablesEmpty")
-         /\ UNCHANGED <<pstep, pdg>>
+         /\ UNCHANGED <<pstep, pdg, plat>>
 
 \* Sim::bounce(h) returned.  obs = [polls, sent, fact : factory invocations caused by
 \* this call, running].
@@ -234,21 +240,29 @@ P_Bounce(h, obs) ==
          \* "Sim::bounce starts the host's software exactly once per call"
          \cup Flag(obs.fact = 1 /\ obs.running, "FactoryOnce")
          \cup Flag(~ph[h].up => (obs.polls[h] = ph[h].fpolls /\ obs.sent[h] = ph[h].fsent), "StopsDead")
-    /\ UNCHANGED <<pstep, pdg>>
+    /\ UNCHANGED <<pstep, pdg, plat>>
+
+\* The test called Sim::set_link_latency(h1, h2, v steps): messages sent from now on take v
+\* steps.  Deadlines that are already running are extended by v (an answer that is still to be
+\* sent may now travel with the new latency) - never tightened.
+P_SetLat(v) ==
+    /\ plat' = v
+    /\ pops' = [o \in OpIds |-> IF Pending(o) /\ pops[o].dl > 0 THEN [pops[o] EXCEPT !.dl = @ + v] ELSE pops[o]]
+    /\ UNCHANGED <<pstep, ph, pdg, bad>>
 
 \* The logs of the two hosts that never talk to host 1 or 2 were compared with
 \* those of a twin run in which the crash and bounce calls were left out.
 \* "crashing or bouncing one host never disturbs ... any other host"
 P_Twin(equal) ==
     /\ bad' = bad \cup Flag(equal, "Undisturbed")
-    /\ UNCHANGED <<pstep, ph, pops, pdg>>
+    /\ UNCHANGED <<pstep, ph, pops, pdg, plat>>
 
 P_Reset ==
     /\ pstep' = 0
     /\ ph' = [h \in Hosts |->
                [up |-> TRUE, inc |-> 1, turned |-> FALSE, lastTurn |-> 0, downs |-> {}, downAt |-> -1,
                 fpolls |-> -1, fsent |-> -1, bound |-> {}]]
-    /\ pops' = <<>> /\ pdg' = <<>> /\ bad' = {}
+    /\ pops' = <<>> /\ pdg' = <<>> /\ plat' = LatSteps /\ bad' = {}
 
 ---------------------------------------------------------------------------
 GuardsRan      == "GuardsRan"      \notin bad
